@@ -19,6 +19,8 @@ CONSTANTS
   NsCachesInit = FALSE
   EmbNullChecked = TRUE
   OverflowWrapped = TRUE
+  InstOffsetAll = TRUE
+  OpenPrecheck = TRUE
 INVARIANT TypeOK
 INVARIANT ImplRefinesReq
 INVARIANT PositionFileOK
